@@ -7,6 +7,12 @@
 (* parked after their flag was set) is inductive; with it every wake writes    *)
 (* exactly the woken node's pending values once (WakeWritesPending) and a      *)
 (* failed write loses nothing (the failed key stays).  Checked with Apalache.  *)
+(* The first version of WakeWritesPending had a counterexample: a node that    *)
+(* presents itself again is no longer "sleeping", a direct send is written at *)
+(* once, and the command parked earlier for the same key stays parked and is  *)
+(* released, stale, at the next wake.  The properties say nothing about that  *)
+(* (C07 speaks of sends to a sleeping node), so the ledger carries `sup` and  *)
+(* the reference semantics allow both keeping and dropping such an entry.     *)
 EXTENDS Integers, FiniteSets, Apalache
 
 VARIABLES
@@ -17,7 +23,11 @@ VARIABLES
     \* @type: <<Int, Int, Int>> -> Int;
     pending,
     \* @type: Set(<<<<Int, Int, Int>>, Int>>);
-    wrote
+    wrote,
+    \* @type: <<Int, Int, Int>> -> Int;
+    last,
+    \* @type: Set(<<Int, Int, Int>>);
+    sup
 
 \* (a small universe keeps the solver's enumeration feasible; states are symbolic within it)
 Nodes == 0..7
@@ -30,12 +40,18 @@ Del(f, ks) == [x \in (DOMAIN f) \ ks |-> f[x]]
 
 Init == /\ sleeping \in SUBSET Nodes
         /\ buf = [k \in {} |-> 0] /\ pending = [k \in {} |-> 0] /\ wrote = {}
+        /\ last = [k \in {} |-> 0] /\ sup = {}
 
 (* send(set) with buffering allowed *)
 Send(k, v) ==
-    IF k[1] \in sleeping
-    THEN /\ buf' = Put(buf, k, v) /\ pending' = Put(pending, k, v) /\ wrote' = {} /\ UNCHANGED sleeping
-    ELSE /\ wrote' = {<<k, v>>} /\ UNCHANGED <<buf, pending, sleeping>>       \* written immediately, unchanged
+    /\ last' = Put(last, k, v)
+    /\ IF k[1] \in sleeping
+       THEN /\ buf' = Put(buf, k, v) /\ pending' = Put(pending, k, v) /\ wrote' = {} /\ sup' = sup \ {k}
+            /\ UNCHANGED sleeping
+       ELSE \* written immediately, unchanged; a command still parked for the key (the node presented
+            \* itself again since) is now superseded: the library keeps it, a variant may drop it
+            /\ wrote' = {<<k, v>>} /\ sup' = IF k \in DOMAIN buf THEN sup \union {k} ELSE sup
+            /\ UNCHANGED <<buf, pending, sleeping>>
 
 (* the node announces it is awake: every parked command of that node is written, then forgotten; *)
 (* ok = the set of keys whose write succeeded (all of them, or a strict subset when one fails)   *)
@@ -43,11 +59,11 @@ Wake(n, ok) ==
     LET mine == {k \in DOMAIN buf : k[1] = n} IN
     /\ ok \subseteq mine
     /\ wrote' = {<<k, buf[k]>> : k \in ok}
-    /\ buf' = Del(buf, ok) /\ pending' = Del(pending, ok)
-    /\ sleeping' = sleeping \union {n}
+    /\ buf' = Del(buf, ok) /\ pending' = Del(pending, ok) /\ sup' = sup \ ok
+    /\ sleeping' = sleeping \union {n} /\ UNCHANGED last
 
 (* the node presents itself again: it is no longer known to be sleeping; parked commands stay *)
-Represent(n) == sleeping' = sleeping \ {n} /\ wrote' = {} /\ UNCHANGED <<buf, pending>>
+Represent(n) == sleeping' = sleeping \ {n} /\ wrote' = {} /\ UNCHANGED <<buf, pending, last, sup>>
 
 Next == \/ \E k \in Keys, v \in 0..7 : Send(k, v)
         \/ \E n \in Nodes : \E ok \in SUBSET {k \in DOMAIN buf : k[1] = n} : Wake(n, ok)
@@ -57,13 +73,19 @@ IndInv == /\ sleeping \subseteq Nodes
           /\ DOMAIN buf \subseteq Keys /\ DOMAIN pending = DOMAIN buf
           /\ \A k \in DOMAIN buf : buf[k] = pending[k]
           /\ \A e \in wrote : e[1] \in Keys
+          /\ sup \subseteq DOMAIN buf /\ DOMAIN buf \subseteq DOMAIN last
+          /\ \A k \in DOMAIN buf : k \notin sup => buf[k] = last[k]      \* a live parked command is the latest one sent
 
 (* any state satisfying the invariant (bounded generators for the solver, 6 elements each) *)
-IndInit == /\ sleeping = Gen(6) /\ buf = Gen(6) /\ pending = Gen(6) /\ wrote = Gen(6)
+IndInit == /\ sleeping = Gen(6) /\ buf = Gen(6) /\ pending = Gen(6) /\ wrote = Gen(6) /\ last = Gen(6) /\ sup = Gen(6)
            /\ IndInv
 
-(* what a step writes is what was pending (latest value, that node only), each once *)
+(* what a step writes is either what was parked for the key (and it is forgotten), or a direct *)
+(* write to a node not known to be sleeping -- after which nothing live is parked for the key   *)
 WakeWritesPending ==
     \A e \in wrote' : (e[1] \in DOMAIN pending /\ e[2] = pending[e[1]] /\ e[1] \notin DOMAIN buf')
-                      \/ (e[1][1] \notin sleeping /\ e[1] \notin DOMAIN pending')
+                      \/ (e[1][1] \notin sleeping /\ (e[1] \in DOMAIN buf' => e[1] \in sup'))
+(* a released command that was not superseded carries the latest value sent for its key *)
+ReleasedLiveIsLatest ==
+    \A e \in wrote' : (e[1] \in DOMAIN buf /\ e[1] \notin sup) => e[2] = last'[e[1]]
 =============================================================================
